@@ -39,6 +39,23 @@ def _last(path):
     return strip_generics(path or '').split('::')[-1]
 
 
+def bind_let(st, en, F):
+    """bind the names of one `let` statement (a name or a tuple pattern) in en"""
+    if st['k'] == 'Let' and st['pat'].get('k') == 'Binding' and 'init' in st:
+        en[st['pat']['local']] = ev(st['init'], en, F)
+    elif st['k'] == 'Let' and st['pat'].get('k') == 'Tuple' and 'init' in st:
+        v_ = ev(st['init'], en, F)
+        if not (isinstance(v_, tuple) and v_ and v_[0] == 'TUP' and len(v_) - 1 == len(st['pat']['ch'])):
+            raise Unk('tuple pattern')
+        for q_, x_ in zip(st['pat']['ch'], v_[1:]):
+            if q_.get('k') == 'Binding':
+                en[q_['local']] = x_
+            elif q_.get('k') != 'Wild':
+                raise Unk('tuple pattern')
+    else:
+        raise Unk('statement')
+
+
 def ev(e, env, F):
     """value of an expression: int | ('Some', v) | ('None',) | ('CR', secs, nanos) | ('DT', ticks)"""
     raw = e
@@ -66,6 +83,9 @@ def ev(e, env, F):
         b = ev(e['ch'][0], env, F)
         if isinstance(b, tuple) and b[0] == 'DT' and e.get('field') == '0':
             return b[1]
+        if isinstance(b, tuple) and b and b[0] == 'TUP' and str(e.get('field', '')).isdigit() and \
+                int(e['field']) < len(b) - 1:
+            return b[1 + int(e['field'])]
         raise Unk('field')
     if k == 'Cast':
         return ev(e['ch'][0], env, F)
@@ -102,13 +122,12 @@ def ev(e, env, F):
     if k == 'Block':
         en = dict(env)
         for st in e.get('stmts', []):
-            if st['k'] == 'Let' and st['pat'].get('k') == 'Binding' and 'init' in st:
-                en[st['pat']['local']] = ev(st['init'], en, F)
-            else:
-                raise Unk('statement')
+            bind_let(st, en, F)
         if 'expr' not in e:
             raise Unk('block without value')
         return ev(e['expr'], en, F)
+    if k == 'Tup' and e.get('ch'):
+        return ('TUP',) + tuple(ev(x, env, F) for x in e['ch'])
     if k == 'Closure':
         return ('FN', e, env)
     if k == 'If':
